@@ -234,12 +234,15 @@ def build_system_matrix(net, branch_pit, node_pit, heat_mode):
             system_matrix = csr_matrix((system_data, system_cols, ptr),
                                        shape=(len_n + len_b + len_sl, len_n + len_b + len_sl))
             net["_internal_data"]["hydraulic_data_sorting"] = data_order
-            net["_internal_data"]["hydraulic_matrix"] = system_matrix
+            # keep a private copy of the structure: the solver sums duplicate entries of the
+            # matrix it is given in place, which would change the stored index arrays
+            net["_internal_data"]["hydraulic_matrix"] = system_matrix.copy()
     else:
         data_order = net["_internal_data"]["hydraulic_data_sorting"]
         system_data = system_data[data_order]
-        system_matrix = net["_internal_data"]["hydraulic_matrix"]
-        system_matrix.data = system_data
+        structure = net["_internal_data"]["hydraulic_matrix"]
+        system_matrix = csr_matrix((system_data, structure.indices.copy(), structure.indptr.copy()),
+                                   shape=structure.shape)
 
     # load vector on the right side
     if not heat_mode:
